@@ -13,7 +13,7 @@ REQUIRED_THEOREMS = ['Usid.C10.flatten_of_reshape', 'Usid.C10.reshape_of_flatten
                      'Usid.C10.incompatible_raises', 'Usid.C10.rank_mismatch_raises', 'Usid.C10.result_shape',
                      'Usid.C10.one_sided_pos_size', 'Usid.C10.one_sided_spec_size',
                      'Usid.C10.one_sided_pos_incompatible_raises', 'Usid.C10.one_sided_spec_incompatible_raises']
-RULE = ('[also: main dtypes f8/f4/i4/c16/compound, chunked main, multi-chunk dask arrays, the lazily built N-D form, mixed containers for the two index matrices, verbose=True; a one-sided request must SUCCEED when every missing size is >= 2] generator datasets (1-3 dimensions per side, sizes 1-4, every storage permutation; a share with a single '
+RULE = ('[also: images / single spectra with the single-point axis squeezed out and the other side in every storage order] [also: main dtypes f8/f4/i4/c16/compound, chunked main, multi-chunk dask arrays, the lazily built N-D form, mixed containers for the two index matrices, verbose=True; a one-sided request must SUCCEED when every missing size is >= 2] generator datasets (1-3 dimensions per side, sizes 1-4, every storage permutation; a share with a single '
         'position or a single spectroscopic point); the file-order N-D form is flattened with the dataset\'s own index '
         'matrices passed as h5py / numpy / dask, with size-1 axes kept or squeezed, with only one matrix, and with '
         'shape-incompatible requests (wrong element count, wrong rank, one-sided with the matrix of another grid); non-trivial = N > 1 and M > 1 with a non-identity rate order on some side')
@@ -43,6 +43,23 @@ def generate(seed, tier):
                       # verbose output
                       'anc_spec': rng.choice([None, None, 'h5py', 'numpy', 'dask']), 'chunked': rng.random() < 0.3,
                       'verbose': rng.random() < 0.2})
+    # images and single spectra: ONE point on a side whose axis has been squeezed out of the N-D array, the other side
+    # with two or three multi-valued dimensions in EVERY storage order (fastest-first is the usual one)
+    for j in range({'quick': 8, 'thorough': 60, 'search': 30}[tier]):
+        rng = derived_rng(seed, 'C10img', j)
+        k = rng.choice([2, 2, 3])
+        sizes = [rng.choice([2, 3, 4]) for _ in range(k)]
+        rate = list(range(k))
+        rng.shuffle(rate)
+        if j % 2 == 0:
+            rate = list(range(k))            # fastest first
+        one, many = ('spec', 'pos') if j % 4 < 2 else ('pos', 'spec')
+        pre = 'P' if many == 'pos' else 'S'
+        ds = {many: {'sizes': sizes, 'rate': rate, 'labels': [pre + gen.LETTERS[d] for d in range(k)],
+                     'units': ['u%d' % d for d in range(k)], 'values': [list(range(3 * d, 3 * d + 4 * x, 4)) for d, x in enumerate(sizes)]},
+              one: {'sizes': [1], 'rate': [0], 'labels': ['Q' + pre], 'units': ['u'], 'values': [[2]]}, 'dtype': 'f8'}
+        cases.append({'ds': ds, 'anc': rng.choice(['h5py', 'numpy', 'dask']), 'squeeze': True, 'bad': None, 'pick': 0,
+                      'anc_spec': None, 'chunked': False, 'verbose': False})
     return cases
 
 
